@@ -16,9 +16,97 @@ import (
 	"fmt"
 	"go/ast"
 	"go/token"
+	"regexp/syntax"
 	"strconv"
 	"strings"
 )
+
+// pxRegex renders a simplified regexp/syntax tree as a Gallina term of type Proxy.Regex.regex
+// (bytes: code points above 255 are clamped, which is exact on ASCII input).
+func pxRegex(re *syntax.Regexp) (string, error) {
+	sub := func(rs []*syntax.Regexp) ([]string, error) {
+		var out []string
+		for _, r := range rs {
+			t, err := pxRegex(r)
+			if err != nil {
+				return nil, err
+			}
+			out = append(out, t)
+		}
+		return out, nil
+	}
+	class := func(pairs []rune) string {
+		var parts []string
+		for i := 0; i+1 < len(pairs); i += 2 {
+			lo, hi := pairs[i], pairs[i+1]
+			if lo > 255 {
+				continue
+			}
+			if hi > 255 {
+				hi = 255
+			}
+			parts = append(parts, fmt.Sprintf("(%d, %d)", lo, hi))
+		}
+		return "(RClass [" + strings.Join(parts, "; ") + "]%N)"
+	}
+	switch re.Op {
+	case syntax.OpEmptyMatch:
+		return "REps", nil
+	case syntax.OpNoMatch:
+		return "REmpty", nil
+	case syntax.OpLiteral:
+		if re.Flags&syntax.FoldCase != 0 {
+			return "", fmt.Errorf("case-folding literal")
+		}
+		var parts []string
+		for _, r := range re.Rune {
+			if r > 127 {
+				return "", fmt.Errorf("non-ASCII literal %q", r)
+			}
+			parts = append(parts, class([]rune{r, r}))
+		}
+		return "(RSeqs [" + strings.Join(parts, "; ") + "])", nil
+	case syntax.OpCharClass:
+		return class(re.Rune), nil
+	case syntax.OpAnyChar:
+		return class([]rune{0, 255}), nil
+	case syntax.OpAnyCharNotNL:
+		return class([]rune{0, 9, 11, 255}), nil
+	case syntax.OpCapture:
+		return pxRegex(re.Sub[0])
+	case syntax.OpStar, syntax.OpPlus, syntax.OpQuest:
+		t, err := pxRegex(re.Sub[0])
+		if err != nil {
+			return "", err
+		}
+		return "(" + map[syntax.Op]string{syntax.OpStar: "RStar", syntax.OpPlus: "RPlus", syntax.OpQuest: "RQuest"}[re.Op] + " " + t + ")", nil
+	case syntax.OpConcat, syntax.OpAlternate:
+		ts, err := sub(re.Sub)
+		if err != nil {
+			return "", err
+		}
+		name := "RSeqs"
+		if re.Op == syntax.OpAlternate {
+			name = "RAlts"
+		}
+		return "(" + name + " [" + strings.Join(ts, ";\n    ") + "])", nil
+	}
+	return "", fmt.Errorf("unsupported regexp operator %v", re.Op)
+}
+
+// pxAnchoredRegex parses src, requires ^...$ and renders the part in between.
+func pxAnchoredRegex(src string) (string, error) {
+	re, err := syntax.Parse(src, syntax.Perl)
+	if err != nil {
+		return "", err
+	}
+	re = re.Simplify()
+	if re.Op != syntax.OpConcat || len(re.Sub) < 2 || re.Sub[0].Op != syntax.OpBeginText || re.Sub[len(re.Sub)-1].Op != syntax.OpEndText {
+		return "", fmt.Errorf("expression is not of the form ^...$")
+	}
+	inner := &syntax.Regexp{Op: syntax.OpConcat, Sub: re.Sub[1 : len(re.Sub)-1]}
+	return pxRegex(inner)
+}
 
 const proxyDir = "goproxytest"
 
@@ -220,6 +308,7 @@ func (g *gen) emitProxyByte(coqName, comment, s string) {
 
 func init() {
 	groups["Proxy"] = func(g *gen) {
+		fmt.Fprintf(&g.buf, "From GI Require Import Proxy.Regex.\n\n")
 		// ---------------- handler
 		h := g.funcDecl(proxyDir, "Server.handler")
 		if h != nil {
@@ -422,6 +511,11 @@ func init() {
 			if c, isCall := e.(*ast.CallExpr); isCall && len(c.Args) == 1 {
 				if s, isLit := pxLitStr(c.Args[0]); isLit {
 					g.emitBytesLit("pseudo_version_re_src", "pseudo.go: pseudoVersionRE = regexp.MustCompile(_)", s)
+					if t, err := pxAnchoredRegex(s); err == nil {
+						fmt.Fprintf(&g.buf, "(* the same expression as a term of Proxy.Regex (regexp/syntax parse tree, simplified; anchors ^ $ = whole-string match) *)\nDefinition pseudo_version_re : regex :=\n  %s.\n\n", t)
+					} else {
+						g.fail("pseudoVersionRE cannot be translated: %v", err)
+					}
 					ok = true
 				}
 			}
